@@ -21,7 +21,11 @@
        allocation only);
      - InternalThreadEntryAux / InternalThreadEntry: signal the owner if replies are already queued (under the reply
        queue's lock), then loop { WaitForNextMessageFromOwner(NEVER); B_TIMED_OUT -> continue; other error -> exit;
-       MessageReceivedFromOwner }, then close the internal end of the socket pair and finish.  MessageReceivedFromOwner
+       MessageReceivedFromOwner }, then close the internal end of the socket pair and finish.
+     - the other documented way to write InternalThreadEntry (g_evd; MessageTransceiverThread, AsyncDataIO): an event
+       loop that blocks in select() on GetInternalThreadWakeupSocket() *first* and, when that socket is readable, polls
+       WaitForNextMessageFromOwner(ref, 0) until B_TIMED_OUT.  Such a thread never looks at its queue unless it is
+       signalled -- which is what StartInternalThread's initial signal is for.  MessageReceivedFromOwner
        is the default one (NULL -> B_SHUTTING_DOWN) extended by an arbitrary reaction [react] of the subclass: a list of
        replies sent with SendMessageToOwner and whether it then asks to exit.
 
@@ -94,6 +98,9 @@ Inductive pc :=
 | PIStartupCS                                (* about to lock the reply queue's lock *)
 | PIAfterStartup                             (* that lock released *)
 | PILoop                                     (* top of the while(true) of InternalThreadEntry *)
+| PIEvLoop                                   (* event-driven InternalThreadEntry: top of the outer loop *)
+| PIEvWait                                   (* ... blocked in select() on the internal wake-up socket *)
+| PIEvPoll                                   (* ... about to poll WaitForNextMessageFromOwner(ref, 0) again *)
 | PIExit                                     (* left the loop *)
 | PIDone.
 
@@ -131,6 +138,7 @@ Inductive istat := INone | ILive | IExited.    (* the native internal thread: no
 
 Record gst := mkG {
   g_sockets : bool;               (* _useMessagingSockets (constant) *)
+  g_evd     : bool;               (* the subclass's InternalThreadEntry is the event-driven one (constant) *)
   g_alloc   : bool;               (* _messageSocketsAllocated *)
   g_running : bool;               (* _threadRunning *)
   g_iopen   : bool;               (* _threadData[MESSAGE_THREAD_INTERNAL]._messageSocket is valid *)
@@ -141,18 +149,18 @@ Record gst := mkG {
   g_gen     : nat                 (* number of internal threads created so far *)
 }.
 
-Definition g0 (sockets : bool) : gst := mkG sockets (negb sockets) false false ch0 ch0 INone (mkL PIDone []) 0.
+Definition g0 (sockets evd : bool) : gst := mkG sockets evd (negb sockets) false false ch0 ch0 INone (mkL PIDone []) 0.
 
 Definition ch (g : gst) (c : chanid) : chan := match c with CI => g_ci g | CO => g_co g end.
 
 Definition set_ch (c : chanid) (x : chan) (g : gst) : gst :=
   match c with
-  | CI => mkG (g_sockets g) (g_alloc g) (g_running g) (g_iopen g) x (g_co g) (g_ist g) (g_il g) (g_gen g)
-  | CO => mkG (g_sockets g) (g_alloc g) (g_running g) (g_iopen g) (g_ci g) x (g_ist g) (g_il g) (g_gen g)
+  | CI => mkG (g_sockets g) (g_evd g) (g_alloc g) (g_running g) (g_iopen g) x (g_co g) (g_ist g) (g_il g) (g_gen g)
+  | CO => mkG (g_sockets g) (g_evd g) (g_alloc g) (g_running g) (g_iopen g) (g_ci g) x (g_ist g) (g_il g) (g_gen g)
   end.
 
 Definition set_il (l : local) (g : gst) : gst :=
-  mkG (g_sockets g) (g_alloc g) (g_running g) (g_iopen g) (g_ci g) (g_co g) (g_ist g) l (g_gen g).
+  mkG (g_sockets g) (g_evd g) (g_alloc g) (g_running g) (g_iopen g) (g_ci g) (g_co g) (g_ist g) l (g_gen g).
 
 Definition with_sig (x : chan) (n : nat) : chan := mkCh (c_q x) n (c_wc x) (c_sent x) (c_rcvd x).
 Definition with_wc (x : chan) (n : nat) : chan := mkCh (c_q x) (c_sig x) n (c_sent x) (c_rcvd x).
@@ -173,13 +181,13 @@ Definition readable (g : gst) (c : chanid) : bool :=
 (* GetThreadWakeupSocketAux: demand-allocate the connected pair *)
 Definition alloc_sockets (g : gst) : gst :=
   if g_sockets g && negb (g_alloc g)
-  then mkG (g_sockets g) true (g_running g) true (with_sig (g_ci g) 0) (with_sig (g_co g) 0) (g_ist g) (g_il g) (g_gen g)
+  then mkG (g_sockets g) (g_evd g) true (g_running g) true (with_sig (g_ci g) 0) (with_sig (g_co g) 0) (g_ist g) (g_il g) (g_gen g)
   else g.
 
 (* CloseSockets *)
 Definition close_sockets (g : gst) : gst :=
   if g_sockets g
-  then mkG (g_sockets g) false (g_running g) false (with_sig (g_ci g) 0) (with_sig (g_co g) 0) (g_ist g) (g_il g) (g_gen g)
+  then mkG (g_sockets g) (g_evd g) false (g_running g) false (with_sig (g_ci g) 0) (with_sig (g_co g) 0) (g_ist g) (g_il g) (g_gen g)
   else g.
 
 (* SignalInternalThread (c = CI: a byte on the owner's socket comes out on the internal one) /
@@ -204,33 +212,33 @@ Variable react : nat -> list msg * bool.       (* the subclass's MessageReceived
 Definition absorb (c : chanid) (g : gst) : gst :=
   if fd_ok g c then set_ch c (with_sig (ch g c) (c_sig (ch g c) - Nat.min (c_sig (ch g c)) absorb_n)) g else g.
 
-Definition next_reply (rs : list msg) (quit : bool) (k : list frame) : pc * list frame * list ev :=
+Definition next_reply (evd : bool) (rs : list msg) (quit : bool) (k : list frame) : pc * list frame * list ev :=
   match rs with
-  | [] => ((if quit then PIExit else PILoop), k, [])
+  | [] => ((if quit then PIExit else if evd then PIEvPoll else PILoop), k, [])
   | m :: rest => (PSendCS CO m, KReplies rest quit :: k, [])
   end.
 
 (* InternalThreadEntry: what the loop does with the result of WaitForNextMessageFromOwner *)
-Definition dispatch (r : res) (k : list frame) : pc * list frame * list ev :=
+Definition dispatch (evd : bool) (r : res) (k : list frame) : pc * list frame * list ev :=
   match r with
   | RMsg None n => (PIExit, k, [EGot None n])
-  | RMsg (Some x) n => let '(p, k', e) := next_reply (fst (react x)) (snd (react x)) k in (p, k', EGot (Some x) n :: e)
-  | RTimedOut => (PILoop, k, [])
+  | RMsg (Some x) n => let '(p, k', e) := next_reply evd (fst (react x)) (snd (react x)) k in (p, k', EGot (Some x) n :: e)
+  | RTimedOut => ((if evd then PIEvLoop else PILoop), k, [])
   | _ => (PIExit, k, [])
   end.
 
 (* the call in flight returns r *)
-Fixpoint ret (r : res) (k : list frame) : pc * list frame * list ev :=
+Fixpoint ret (evd : bool) (r : res) (k : list frame) : pc * list frame * list ev :=
   match k with
   | [] => (PIdle, [], [ERet r])
-  | KShutdown w :: k' => if w then (PJoinTest, KDiscard :: k', []) else ret RVoid k'
-  | KDiscard :: k' => ret RVoid k'
-  | KLoop :: k' => dispatch r k'
-  | KReplies rs quit :: k' => next_reply rs quit k'
+  | KShutdown w :: k' => if w then (PJoinTest, KDiscard :: k', []) else ret evd RVoid k'
+  | KDiscard :: k' => ret evd RVoid k'
+  | KLoop :: k' => dispatch evd r k'
+  | KReplies rs quit :: k' => next_reply evd rs quit k'
   end.
 
 Definition fin (g : gst) (r : res) (k : list frame) (e : list ev) : option (gst * local * list ev) :=
-  let '(p, k', e') := ret r k in Some (g, mkL p k', e ++ e').
+  let '(p, k', e') := ret (g_evd g) r k in Some (g, mkL p k', e ++ e').
 
 Definition goto (g : gst) (p : pc) (k : list frame) (e : list ev) : option (gst * local * list ev) :=
   Some (g, mkL p k, e).
@@ -272,7 +280,7 @@ Definition step (c : choice) (g : gst) (l : local) : option (gst * local * list 
       if g_running g then fin g RAlreadyRunning k [] else goto g (PStartSpawn (negb (is_nil (c_q (g_ci g))))) k []
   | PStartSpawn needs, CRun =>
       let g1 := alloc_sockets g in
-      goto (mkG (g_sockets g1) (g_alloc g1) true (g_iopen g1) (g_ci g1) (g_co g1) ILive (mkL PIEntry []) (S (g_gen g1)))
+      goto (mkG (g_sockets g1) (g_evd g1) (g_alloc g1) true (g_iopen g1) (g_ci g1) (g_co g1) ILive (mkL PIEntry []) (S (g_gen g1)))
            (PStartSig needs) k [EFork]
   | PStartSig needs, CRun =>
       if needs then let (g', e) := signal CI g in fin g' ROk k e else fin g ROk k []
@@ -284,7 +292,7 @@ Definition step (c : choice) (g : gst) (l : local) : option (gst * local * list 
       match g_ist g with
       | IExited =>
           let g1 := close_sockets g in
-          fin (mkG (g_sockets g1) (g_alloc g1) false (g_iopen g1) (g_ci g1) (g_co g1) INone (g_il g1) (g_gen g1)) ROk k []
+          fin (mkG (g_sockets g1) (g_evd g1) (g_alloc g1) false (g_iopen g1) (g_ci g1) (g_co g1) INone (g_il g1) (g_gen g1)) ROk k []
       | _ => None
       end
   | PGetSock, CRun => fin (alloc_sockets g) RVoid k []
@@ -293,10 +301,13 @@ Definition step (c : choice) (g : gst) (l : local) : option (gst * local * list 
       if is_nil (c_q (g_co g)) then goto g PIAfterStartup k [EDump]
       else let (g', e) := signal CO g in goto g' PIAfterStartup k (e ++ [EDump])
   | PIAfterStartup, CRun => goto g PILoop k []
-  | PILoop, CRun => goto g (PRecvAbsorb CI WNever) (KLoop :: k) []
+  | PILoop, CRun => if g_evd g then goto g PIEvLoop k [] else goto g (PRecvAbsorb CI WNever) (KLoop :: k) []
+  | PIEvLoop, CRun => if fd_ok g CI then goto g PIEvWait k [EPark CI (c_sig (g_ci g))] else goto g PIExit k []
+  | PIEvWait, CRun => if readable g CI then goto g PIEvPoll k [EWoken] else None
+  | PIEvPoll, CRun => goto g (PRecvAbsorb CI WPoll) (KLoop :: k) []
   | PIExit, CRun =>
-      goto (mkG (g_sockets g) (g_alloc g) (g_running g) (if g_sockets g then false else g_iopen g)
-                (g_ci g) (g_co g) IExited (g_il g) (g_gen g)) PIDone k [EEnd]
+      goto (mkG (g_sockets g) (g_evd g) (g_alloc g) (g_running g) (if g_sockets g then false else g_iopen g)
+                (if g_sockets g then with_sig (g_ci g) 0 else g_ci g) (g_co g) IExited (g_il g) (g_gen g)) PIDone k [EEnd]
   | _, _ => None
   end.
 
@@ -305,7 +316,7 @@ Definition step (c : choice) (g : gst) (l : local) : option (gst * local * list 
 Definition is_dp (p : pc) : bool :=
   match p with
   | PSendCS _ _ | PSendSig _ _ | PRecvCS _ _ | PRecvGot _ _ _ | PRecvNone _ _ | PRecvPark _ _
-  | PStartSig _ | PJoinWait | PIEntry | PIStartupCS | PIAfterStartup => true
+  | PStartSig _ | PJoinWait | PIEntry | PIStartupCS | PIAfterStartup | PIEvWait => true
   | _ => false
   end.
 
@@ -337,7 +348,7 @@ Record sys := mkS { s_g : gst; s_l : tid -> local }.
 
 Definition upd (f : tid -> local) (t : tid) (v : local) : tid -> local := fun x => if Nat.eqb x t then v else f x.
 
-Definition sys0 (sockets : bool) : sys := mkS (g0 sockets) (fun _ => l_idle).
+Definition sys0 (sockets evd : bool) : sys := mkS (g0 sockets evd) (fun _ => l_idle).
 
 Inductive who := U (t : tid) | I.
 Inductive label := LBegin (t : tid) (o : op) | LStep (w : who) (c : choice).
@@ -365,9 +376,21 @@ Definition sys_step (s : sys) (lab : label) : option (sys * list ev) :=
       end
   end.
 
-Inductive reachable (sockets : bool) : sys -> Prop :=
-| reach_init : reachable sockets (sys0 sockets)
-| reach_step : forall s lab s' e, reachable sockets s -> sys_step s lab = Some (s', e) -> reachable sockets s'.
+(* states reachable by steps whose labels satisfy [ok] (a contract on the threads' programs; [fun _ => true] = none) *)
+Inductive reachable_if (ok : label -> bool) (sockets evd : bool) : sys -> Prop :=
+| reach_init : reachable_if ok sockets evd (sys0 sockets evd)
+| reach_step : forall s lab s' e, reachable_if ok sockets evd s -> ok lab = true -> sys_step s lab = Some (s', e) ->
+                                  reachable_if ok sockets evd s'.
+
+Definition any_label (_ : label) : bool := true.
+Definition reachable := reachable_if any_label.
+
+(* the contract "only the owner sends to the internal thread" (every thread may still send replies) *)
+Definition owner_sends_ci (lab : label) : bool :=
+  match lab with
+  | LBegin t (OSend CI _) => Nat.eqb t 0
+  | _ => true
+  end.
 
 (* executable form, for the examples and the driver *)
 Fixpoint run (s : sys) (labs : list label) : option sys :=
